@@ -679,9 +679,20 @@ func (w *syWalk) call(x *ast.CallExpr, st *syState, deferred bool) {
 		}
 	}
 	if fl, ok := x.Fun.(*ast.FuncLit); ok {
-		// immediately invoked literal: inline
+		// immediately invoked literal: inline; its parameters are typed variables of its own
+		// (normalize.go writes a statement call of a single-use helper that defers or returns this way)
 		inner := st.clone()
+		env, fresh := w.env, w.fresh
+		w.env, w.fresh = map[string]string{}, map[string]bool{}
+		for k, v := range env {
+			w.env[k] = v
+		}
+		for k, v := range fresh {
+			w.fresh[k] = v
+		}
+		w.bindParams(fl.Type)
 		w.stmts(fl.Body.List, &inner)
+		w.env, w.fresh = env, fresh
 	} else {
 		w.expr(x.Fun, st)
 	}
